@@ -71,6 +71,11 @@ def nl_gap(d, j, h, i, l, g, kg):
     return np.array([kg * x if x > 0.0 else 0.0])
 
 
+def nl_decoy(d, j, h, amp):
+    import numpy as np
+    return np.array([amp])
+
+
 def nl_veldep(d, j, h, idx, c):
     import numpy as np
     return np.asarray(c) * (d[idx, j] - d[idx, j - 1]) / h
@@ -269,6 +274,18 @@ def make_newmark_case(r, np, ci):
 def run_newmark_case(sh, np, ode, rec, C, r, case):
     tags = C["tags"]
     ts = ode.SolveNewmark(C["m"], C["b"], C["k"], C["h"], rf=C["rf"])
+    ks = len(C["nonrf"])
+    if ks and case.get("index", 0) % 3 == 0:
+        # history on one solver: an earlier definition of the nonlinear terms (other key,
+        # large force) is REPLACED by the next call -- the documented recurrence contains
+        # the terms of the current definition only; def_nonlin({}) switches them off
+        Td = np.zeros((ks, 1))
+        Td[int(r.integers(0, ks)), 0] = 1.0
+        amp = 1e3 * float(np.abs(C["F"]).max() + 1.0)
+        ts.def_nonlin({"decoy": (nl_decoy, Td, {"amp": amp})})
+        sh.count("cell:nm:def_nonlin-redefined")
+        if not C["nl"]:
+            ts.def_nonlin({})
     if C["nl"]:
         dct = {}
         for q, (key, func, T, args) in enumerate(C["nl"]):
